@@ -46,7 +46,7 @@ class FailingRM:
 class MObj:
     """Model of one tracked object."""
     __slots__ = ('committed', 'c_in_root', 'value', 'owned', 'in_root',
-                 'dirty', 'new_in_txn')
+                 'dirty', 'new_in_txn', 'in_a', 'c_in_a')
 
     def __init__(self):
         self.committed = None     # committed value, None if not in the DB
@@ -56,6 +56,8 @@ class MObj:
         self.in_root = False      # working root membership
         self.dirty = False
         self.new_in_txn = False   # became owned in the current transaction
+        self.in_a = False         # referenced by the existing object 'a'
+        self.c_in_a = False
 
     def copy(self):
         m = MObj()
@@ -162,6 +164,10 @@ class ConnWorld:
             elif k == 'link':
                 ops += [('link', n) for n in NEW if n in spec['objects']
                         and not m[n].in_root]
+            elif k == 'linka':
+                # reachable through an existing object other than the root
+                ops += [('linka', n) for n in NEW if n in spec['objects']
+                        and not m[n].in_a]
             elif k == 'add':
                 ops += [('add', n) for n in NEW if n in spec['objects']
                         and not m[n].owned]
@@ -191,7 +197,8 @@ class ConnWorld:
 
     # -- model transitions -------------------------------------------------
     def _reachable_new(self):
-        return [n for n in NEW if self.model[n].in_root
+        return [n for n in NEW if (self.model[n].in_root
+                                   or self.model[n].in_a)
                 and not self.model[n].owned]
 
     def _model_flush(self):
@@ -215,6 +222,7 @@ class ConnWorld:
                 mo.value = mo.committed
             if mo.owned:
                 mo.c_in_root = mo.in_root
+                mo.c_in_a = mo.in_a
             mo.dirty = False
             mo.new_in_txn = False
         if self.root_dirty:
@@ -232,6 +240,7 @@ class ConnWorld:
             if mo.owned:
                 mo.value = mo.committed
             mo.in_root = mo.c_in_root
+            mo.in_a = mo.c_in_a
             mo.dirty = False
             mo.new_in_txn = False
         self.root_dirty = False
@@ -295,6 +304,15 @@ class ConnWorld:
             self.root_dirty = True
             self.joined = True
             return 'link'
+        if k == 'linka':
+            n = op[1]
+            self.objs['a'].child = self.objs[n]
+            for mo in m.values():
+                mo.in_a = False
+            m[n].in_a = True
+            m['a'].dirty = True
+            self.joined = True
+            return 'linka'
         if k == 'unlink':
             n = op[1]
             del root[n]
@@ -324,11 +342,12 @@ class ConnWorld:
             sp.rollback()
             for n in m:
                 cur_value = m[n].value
-                cur_committed = (m[n].committed, m[n].c_in_root)
+                cur_committed = (m[n].committed, m[n].c_in_root,
+                                 m[n].c_in_a)
                 m[n] = snap[n].copy()
                 # what is committed is not the savepoint's business (a rival
                 # may have committed since)
-                m[n].committed, m[n].c_in_root = cur_committed
+                m[n].committed, m[n].c_in_root, m[n].c_in_a = cur_committed
                 if not m[n].owned:
                     # an object that was not in the database at the savepoint
                     # is un-added; its in-memory attributes are nobody's
@@ -430,7 +449,8 @@ class ConnWorld:
         for n in sorted(self.model):
             mo = self.model[n]
             out.append((n, mo.owned, mo.in_root, mo.dirty, mo.new_in_txn,
-                        mo.c_in_root, mo.committed is None,
+                        mo.c_in_root, mo.in_a, mo.c_in_a,
+                        mo.committed is None,
                         mo.value == mo.committed))
         return (tuple(out), len(self.handles), self.joined, self.root_dirty,
                 getattr(self, 'rivalled', False), self.kind)
